@@ -450,6 +450,20 @@ def run_case(stratum, rng, ctx):
     opt, nonempty = judge_call(ctx, s1, s2, sm, d["c1"], d["c2"], d["matrix"], d["gp"],
                                d["terminal"], d["local"], d["max_number"], res)
     n, m = len(d["c1"]), len(d["c2"])
+    if n > 0 and m > 0 and n * m <= 2500 and ctx.index % 6 == 0:
+        # the same problem in positional form (documented: the scores stay the same, pos_matrix.get_score(p1[i], p2[j])
+        # == matrix.get_score(s1[i], s2[j])): its optimum is the optimum of the original problem
+        ctx.op("as_positional")
+        ctx.oracle("score_is_optimum")
+        pm, p1, p2 = sm.as_positional(s1, s2)
+        want = np.asarray(d["matrix"])[np.ix_(d["c1"], d["c2"])]
+        got = np.asarray(pm.score_matrix())
+        if got.shape != want.shape or not np.array_equal(got, want):
+            ctx.fail("score_is_optimum", "as_positional(): the positional matrix is not matrix[code1[i], code2[j]] (shape %s, expected %s)"
+                     % (list(got.shape), list(want.shape)))
+        rp = align.align_optimal(p1, p2, pm, gap_penalty=d["gp"], terminal_penalty=d["terminal"], local=d["local"], max_number=1)
+        if int(rp[0].score) != opt:
+            ctx.fail("score_is_optimum", "the positional form of the problem reports %d, the optimum is %d" % (int(rp[0].score), opt))
     ctx.mark_nontrivial(n > 0 and m > 0 and nonempty > 0)
     has_gap = any((np.asarray(a.trace) == -1).any() for a in res[:3] if np.asarray(a.trace).size)
     ctx.state([mode_of(d["terminal"], d["local"]), isinstance(d["gp"], tuple), min(n, 8), min(m, 8),
